@@ -582,6 +582,10 @@ func runConc(e *env) {
 		}
 		e.probe("closure of references checked at quiescence")
 	}
+	// whatever interleaved: once everything is quiet, nothing the implementation holds is resolvable
+	if h := e.implHeldResolvable(); len(h) > 0 {
+		e.report("C11", "resolvable-left-held", "an operation is still held at quiescence although everything it references is installed", fmt.Sprint(h), false)
+	}
 	shared := e.sc.Family == "concshared"
 	switch {
 	case shared:
